@@ -531,6 +531,7 @@ def _typename(T):
 
 
 def m_isinstance(x, T):
+    T = _TYPE_ALIAS.get(T, T) if not isinstance(T, (tuple, list, dict)) and _hashable(T) else T
     if isinstance(T, tuple):
         for t in T:
             if m_isinstance(x, t):
@@ -914,16 +915,17 @@ def m_type(x, *a):
             return x.T.classes[x.cls]
         x = r
     if isinstance(x, SBool):
-        return bool
+        return _TYPE_ALIAS_INV[bool]
     if isinstance(x, SInt):
-        return int
+        return _TYPE_ALIAS_INV[int]
     if isinstance(x, SReal):
-        return float
+        return _TYPE_ALIAS_INV[float]
     if isinstance(x, SStr):
-        return str
+        return _TYPE_ALIAS_INV[str]
     if isinstance(x, SSeq):
-        return list if x.kind == 'list' else tuple
-    return _b.type(x)
+        return _TYPE_ALIAS_INV[list if x.kind == 'list' else tuple]
+    t = _b.type(x)
+    return _TYPE_ALIAS_INV.get(t, t)
 
 
 def m_range(*a):
@@ -988,6 +990,19 @@ def m_gcd(a, b):
     import math
     return math.gcd(a, b)
 
+
+def _hashable(x):
+    try:
+        hash(x)
+        return True
+    except TypeError:
+        return False
+
+
+# inside extracted code the names str/int/... are bound to the model functions; as *types* they mean the builtin
+_TYPE_ALIAS = {m_str: str, m_int: int, m_float: float, m_list: list, m_tuple: tuple, m_dict: dict, m_bool: bool,
+               m_set: set}
+_TYPE_ALIAS_INV = {v: k for k, v in _TYPE_ALIAS.items()}
 
 MODEL_BUILTINS = {
     'isinstance': m_isinstance, 'len': m_len, 'bool': m_bool, 'str': m_str, 'int': m_int, 'float': m_float,
